@@ -44,6 +44,10 @@ for b2b in (False, True):
     add("crossbar", 3, 3, False, "thorough", b2b)
 
 
+VARIANTS["shared(2x2,register=False,timeout=2)"] = ("quick", dict(kind="shared", nm=2, ns=2, register=False, back_to_back=False, timeout=2, maxlat=3))
+VARIANTS["shared(2x1,register=False,timeout=3)+back_to_back"] = ("thorough", dict(kind="shared", nm=2, ns=1, register=False, back_to_back=True, timeout=3, maxlat=4))
+
+
 def mk(name, table=VARIANTS):
     kw = table[name][1]
     return lambda: WbIcHarness(name, **kw)
